@@ -1,0 +1,209 @@
+//! Verification hooks. This module only exists under
+//! `--cfg blake3_team_blake3_verif`; ordinary builds never compile it.
+//!
+//! Everything here is additive: it lets an external harness force the detected
+//! platform, observe kernel entry, script the `Join` used by
+//! `update_with_join`, and copy out the complete live state of a `Hasher` or
+//! `OutputReader`. None of it changes what the crate computes.
+
+use crate::platform::Platform;
+use crate::{Hasher, OutputReader, join};
+use core::sync::atomic::{AtomicUsize, Ordering};
+
+/// Which kernel dispatcher is being entered.
+#[derive(Clone, Copy, Debug, PartialEq, Eq)]
+pub enum KernelCall {
+    CompressInPlace,
+    CompressXof,
+    HashMany,
+    XofMany,
+}
+
+pub type DetectHook = fn() -> Option<Platform>;
+pub type KernelHook = fn(KernelCall);
+pub type JoinHook = fn(&mut (dyn FnMut() + Send), &mut (dyn FnMut() + Send));
+
+static DETECT: AtomicUsize = AtomicUsize::new(0);
+static KERNEL: AtomicUsize = AtomicUsize::new(0);
+static JOIN: AtomicUsize = AtomicUsize::new(0);
+
+pub fn set_detect_hook(hook: Option<DetectHook>) {
+    DETECT.store(hook.map_or(0, |f| f as usize), Ordering::SeqCst);
+}
+
+pub fn set_kernel_hook(hook: Option<KernelHook>) {
+    KERNEL.store(hook.map_or(0, |f| f as usize), Ordering::SeqCst);
+}
+
+pub fn set_join_hook(hook: Option<JoinHook>) {
+    JOIN.store(hook.map_or(0, |f| f as usize), Ordering::SeqCst);
+}
+
+#[inline]
+pub(crate) fn detect_override() -> Option<Platform> {
+    let raw = DETECT.load(Ordering::SeqCst);
+    if raw == 0 {
+        return None;
+    }
+    // SAFETY: only set_detect_hook stores here, and it stores a DetectHook.
+    let hook: DetectHook = unsafe { core::mem::transmute::<usize, DetectHook>(raw) };
+    hook()
+}
+
+#[inline]
+pub(crate) fn kernel_entry(call: KernelCall) {
+    let raw = KERNEL.load(Ordering::SeqCst);
+    if raw != 0 {
+        // SAFETY: only set_kernel_hook stores here, and it stores a KernelHook.
+        let hook: KernelHook = unsafe { core::mem::transmute::<usize, KernelHook>(raw) };
+        hook(call);
+    }
+}
+
+/// A `Join` whose two sides are handed, type-erased, to the registered join
+/// hook, which may run them in either order or on different threads. Both must
+/// have run to completion when the hook returns. Without a hook this is
+/// `SerialJoin`.
+pub enum VerifJoin {}
+
+impl join::Join for VerifJoin {
+    fn join<A, B, RA, RB>(oper_a: A, oper_b: B) -> (RA, RB)
+    where
+        A: FnOnce() -> RA + Send,
+        B: FnOnce() -> RB + Send,
+        RA: Send,
+        RB: Send,
+    {
+        let raw = JOIN.load(Ordering::SeqCst);
+        if raw == 0 {
+            return (oper_a(), oper_b());
+        }
+        // SAFETY: only set_join_hook stores here, and it stores a JoinHook.
+        let hook: JoinHook = unsafe { core::mem::transmute::<usize, JoinHook>(raw) };
+        let mut oper_a = Some(oper_a);
+        let mut oper_b = Some(oper_b);
+        let mut result_a: Option<RA> = None;
+        let mut result_b: Option<RB> = None;
+        {
+            let mut run_a = || result_a = Some((oper_a.take().expect("side A run twice"))());
+            let mut run_b = || result_b = Some((oper_b.take().expect("side B run twice"))());
+            hook(&mut run_a, &mut run_b);
+        }
+        (
+            result_a.expect("join hook did not run side A"),
+            result_b.expect("join hook did not run side B"),
+        )
+    }
+}
+
+/// A plain copy of every field of `ChunkState`.
+#[derive(Clone, Debug)]
+pub struct VerifChunkState {
+    pub cv: [u32; 8],
+    pub chunk_counter: u64,
+    pub buf: [u8; 64],
+    pub buf_len: u8,
+    pub blocks_compressed: u8,
+    pub flags: u8,
+    pub platform: Platform,
+}
+
+/// A plain copy of every field of `Hasher`. `cv_stack[..cv_stack_len]` are the
+/// live entries; the rest is zero.
+#[derive(Clone, Debug)]
+pub struct VerifHasherState {
+    pub key: [u32; 8],
+    pub chunk_state: VerifChunkState,
+    pub initial_chunk_counter: u64,
+    pub cv_stack: [[u8; 32]; crate::MAX_DEPTH + 1],
+    pub cv_stack_len: usize,
+}
+
+/// A plain copy of every field of `OutputReader` (and its inner `Output`).
+#[derive(Clone, Debug)]
+pub struct VerifReaderState {
+    pub input_chaining_value: [u32; 8],
+    pub block: [u8; 64],
+    pub block_len: u8,
+    pub counter: u64,
+    pub flags: u8,
+    pub platform: Platform,
+    pub position_within_block: u8,
+}
+
+fn copy_chunk_state(chunk_state: &crate::ChunkState) -> VerifChunkState {
+    // Exhaustive destructuring: a new field breaks this build.
+    let crate::ChunkState {
+        cv,
+        chunk_counter,
+        buf,
+        buf_len,
+        blocks_compressed,
+        flags,
+        platform,
+    } = chunk_state;
+    VerifChunkState {
+        cv: *cv,
+        chunk_counter: *chunk_counter,
+        buf: *buf,
+        buf_len: *buf_len,
+        blocks_compressed: *blocks_compressed,
+        flags: *flags,
+        platform: *platform,
+    }
+}
+
+impl Hasher {
+    /// `update`, but with the scripted `VerifJoin` at every recursive split.
+    pub fn verif_update_with_join(&mut self, input: &[u8]) -> &mut Self {
+        self.update_with_join::<VerifJoin>(input)
+    }
+
+    pub fn verif_state(&self) -> VerifHasherState {
+        // Exhaustive destructuring: a new field breaks this build.
+        let Hasher {
+            key,
+            chunk_state,
+            initial_chunk_counter,
+            cv_stack,
+        } = self;
+        let mut stack = [[0u8; 32]; crate::MAX_DEPTH + 1];
+        for (slot, cv) in stack.iter_mut().zip(cv_stack.iter()) {
+            *slot = *cv;
+        }
+        VerifHasherState {
+            key: *key,
+            chunk_state: copy_chunk_state(chunk_state),
+            initial_chunk_counter: *initial_chunk_counter,
+            cv_stack: stack,
+            cv_stack_len: cv_stack.len(),
+        }
+    }
+}
+
+impl OutputReader {
+    pub fn verif_state(&self) -> VerifReaderState {
+        // Exhaustive destructuring: a new field breaks this build.
+        let OutputReader {
+            inner,
+            position_within_block,
+        } = self;
+        let crate::Output {
+            input_chaining_value,
+            block,
+            block_len,
+            counter,
+            flags,
+            platform,
+        } = inner;
+        VerifReaderState {
+            input_chaining_value: *input_chaining_value,
+            block: *block,
+            block_len: *block_len,
+            counter: *counter,
+            flags: *flags,
+            platform: *platform,
+            position_within_block: *position_within_block,
+        }
+    }
+}
